@@ -69,6 +69,12 @@ def pool():
     d = copy.deepcopy(b); d["secrets"] = d["secrets"][1:]; P["onesecret"] = (d, True, True)
     d = copy.deepcopy(b); d["secrets"] = d["secrets"][::-1]; d["users"].append({"name": "dave", "scopes": ["s1"]}); P["revsecrets"] = (d, True, True)
     d = copy.deepcopy(b); d["users"][0]["groups"] = []; d["users"][0]["commands"] = []; d["prefix_deny"] = ["10.2.0.0/24"]; P["changed"] = (d, True, True)
+    # documents that parse and pass the minimum-content check but from which no scope can be built
+    d = copy.deepcopy(b)
+    for u in d["users"]:
+        u.pop("scopes", None)
+    P["noscopes"] = (d, True, True)
+    d = copy.deepcopy(b); d["secrets"][0]["name"] = "t1"; d["secrets"][1]["name"] = "t2"; P["renamed"] = (d, True, True)
     P["garbage"] = ("{{{ not a configuration", False, False)
     d = copy.deepcopy(b); d["users"] = []; P["nousers"] = (d, True, False)
     d = copy.deepcopy(b); del d["secrets"]; P["nosecrets"] = (d, True, False)
@@ -92,11 +98,11 @@ def collect(ctx, prop):
     parses = [i for i in ids if P[i][1]]
     minok = [i for i in ids if P[i][2]]
     with open(os.path.join(ctx.specdir(), cfg), "w") as f:
-        f.write("SPECIFICATION Spec\nCONSTANTS\n  Docs = {%s}\n  Parses = {%s}\n  MinOK = {%s}\n  MaxLoads = %d\nINVARIANTS ReloadEqualsFresh PublishedMatchesHistory\nPROPERTY PublishedOnlyGrows\nACTION_CONSTRAINT Emit\nCHECK_DEADLOCK FALSE\n"
+        f.write("SPECIFICATION Spec\nCONSTANTS\n  Docs = {%s}\n  Parses = {%s}\n  MinOK = {%s}\n  MaxLoads = %d\n  ChanCap = 1\nINVARIANTS ReloadEqualsFresh PublishedMatchesHistory PipelineExact DrainedEqualsFresh\nPROPERTIES PublishedOnlyGrows EventuallyInForce\nACTION_CONSTRAINT Emit\nCHECK_DEADLOCK FALSE\n"
                 % (", ".join('"%s"' % i for i in ids), ", ".join('"%s"' % i for i in parses), ", ".join('"%s"' % i for i in minok), depth))
     emit = ctx.path("emit.csv")
     r0 = ctx.tlc_ok("MC_Reload", cfg=cfg, env={"EMIT_FILE": emit}, workers=4)
-    hists = emitted_json_lines(emit)
+    hists = [json.loads(x) for x in sorted({json.dumps(h) for h in emitted_json_lines(emit)})]
     ctx.log("MC_Reload: %d states, %d histories emitted" % (r0["distinct"], len(hists)))
     if not quick:
         # depth-4 histories, sampled
@@ -109,6 +115,15 @@ def collect(ctx, prop):
             H.append({"id": "h%d-%s" % (n, fmt), "fmt": fmt, "via": via,
                       "docs": [{"doc": d, "text": text_of(P[d][0], fmt), "parses": P[d][1], "minok": P[d][2]} for d in h],
                       "probes": probes, "users": ["admin", "bob", "carol", "dave"]})
+    # bursts: good documents loaded back to back while the update loop is held in its first build
+    good = [i for i in ids if P[i][1] and P[i][2]]
+    nb = 40 if quick else 600
+    for n in range(nb):
+        trip = [rng.choice(good) for _ in range(rng.choice([3, 3, 4]))]
+        fmt = rng.choice(["yaml", "json"])
+        H.append({"id": "b%d-%s" % (n, fmt), "fmt": fmt, "via": "unmarshal", "burst": True,
+                  "docs": [{"doc": d, "text": text_of(P[d][0], fmt), "parses": True, "minok": True} for d in trip],
+                  "probes": probes, "users": ["admin", "bob", "carol", "dave"]})
     hf = ctx.path("hist.ndjson")
     with open(hf, "w") as f:
         for h in H:
@@ -146,6 +161,15 @@ def run(ctx, prop):
 
 
 def replay(ctx, prop, obj):
+    # bursts: good documents loaded back to back while the update loop is held in its first build
+    good = [i for i in ids if P[i][1] and P[i][2]]
+    nb = 40 if quick else 600
+    for n in range(nb):
+        trip = [rng.choice(good) for _ in range(rng.choice([3, 3, 4]))]
+        fmt = rng.choice(["yaml", "json"])
+        H.append({"id": "b%d-%s" % (n, fmt), "fmt": fmt, "via": "unmarshal", "burst": True,
+                  "docs": [{"doc": d, "text": text_of(P[d][0], fmt), "parses": True, "minok": True} for d in trip],
+                  "probes": probes, "users": ["admin", "bob", "carol", "dave"]})
     hf = ctx.path("hist.ndjson")
     with open(hf, "w") as f:
         f.write(json.dumps(obj["history"]) + "\n")
